@@ -384,6 +384,18 @@ func p2Mutations(a *p2Archive, family string, slice int, rng *rand.Rand) []p2Mut
 					rest := append(append([]par2rw.Packet(nil), f[fn][:pi]...), f[fn][pi+1:]...)
 					f[fn] = append([]par2rw.Packet{x}, rest...)
 				})
+				// the length field of the packet header lies outside the packet MD5:
+				// every other byte of the packet stays what it was
+				trueLen := uint64(64 + len(p.Body))
+				for _, v := range []uint64{4, 60, 64, trueLen - 4, trueLen + 4, trueLen + 64, 1 << 31, 1 << 32, 1 << 62, 1 << 63, 1<<63 + 64, 1<<63 + 68, 1<<63 + trueLen, ^uint64(0) - 3, ^uint64(0)} {
+					v := v
+					if v == trueLen || v == 0 {
+						continue
+					}
+					add(fmt.Sprintf("%s header length %d -> %d", where, trueLen, v), false, func(f map[string][]par2rw.Packet) {
+						f[fn][pi].HeaderLen = v
+					})
+				}
 				add(where+" duplicated with altered body", false, func(f map[string][]par2rw.Packet) {
 					x := f[fn][pi]
 					x.Body = append([]byte(nil), x.Body...)
@@ -506,6 +518,36 @@ func (j *c19Judge) run(r *core.R, what string) {
 		var vr par1.VerifyResult
 		pi = core.Protect(func() { vr, verr = par1.Verify(j.idx, par1.VerifyOptions{VerifyAllData: true}) })
 		clean = pi == nil && verr == nil && !vr.FileCounts.RepairNeeded()
+		if pi == nil && verr == nil {
+			// A necessary condition that needs no interpretation of header fields: a
+			// parity volume that Verify counts as usable is at least a header plus
+			// as many parity bytes as the longest data file present has.
+			base := strings.TrimSuffix(j.idx, filepath.Ext(j.idx))
+			longest := uint64(0)
+			if ents, err := os.ReadDir(j.dir); err == nil {
+				for _, de := range ents {
+					if strings.HasPrefix(de.Name(), filepath.Base(base)+".p") {
+						continue
+					}
+					if fi, err := de.Info(); err == nil && fi.Mode().IsRegular() && uint64(fi.Size()) > longest {
+						if _, isDeclared := decl[filepath.Join(j.dir, de.Name())]; isDeclared {
+							longest = uint64(fi.Size())
+						}
+					}
+				}
+			}
+			good := 0
+			for v := 1; v <= 99; v++ {
+				if fi, err := os.Stat(fmt.Sprintf("%s.p%02d", base, v)); err == nil && uint64(fi.Size()) >= 96+longest && longest > 0 {
+					good++
+				} else if err == nil && longest == 0 {
+					good++
+				}
+			}
+			if vr.FileCounts.UsableParityFileCount > good {
+				r.Violate("usable-volumes-exceed-intact", "%s: Verify counts %d usable parity volumes; only %d volume files are large enough to hold parity data for the longest data file present (%d bytes)", what, vr.FileCounts.UsableParityFileCount, good, longest)
+			}
+		}
 	}
 	if pi != nil {
 		r.Violate(core.CrashSig(j.fmt+".Verify", pi.Frame, pi.Msg), "%s: Verify panicked: %s\n%s", what, pi.Msg, trunc2(pi.Stack, 1000))
